@@ -10,12 +10,17 @@ from . import ir
 from .ir import AnalysisBroken
 
 
+_cell_serial = [0]
+
+
 class Cell:
-    __slots__ = ("v", "name")
+    __slots__ = ("v", "name", "serial")
 
     def __init__(self, v=None, name=""):
         self.v = v
         self.name = name
+        _cell_serial[0] += 1
+        self.serial = _cell_serial[0]
 
     def get(self):
         return self.v
